@@ -187,3 +187,67 @@ func ZZ_C23_scheduled() {
 	}
 	vrt.Reach("end")
 }
+
+// ZZ_C23_forced: blocks of a symbolic tree may announce forced changes with symbolic delays;
+// blocks are imported in order and forced changes are applied on import, as the digest handler
+// does. A second forced change on a fork that already has one pending is refused; a forced
+// change takes effect exactly when a block with its effective number on its fork is imported;
+// every applied change raises the set id by one and installs its authorities.
+func ZZ_C23_forced() {
+	n := vrt.Param("blocks", 4)
+	maxDelay := vrt.Param("maxdelay", 2)
+	t, bs := zzBuildTree23(n)
+	gs, err := NewGrandpaStateFromGenesis(kv.New(), bs, []types.GrandpaVoter{}, zzNoTelemetry{})
+	vrt.Assert("genesis_ok", err == nil)
+	type pend struct {
+		block int
+		delay uint32
+	}
+	var pending []pend
+	setID := uint64(0)
+	for i := 1; i <= n; i++ {
+		sfx := string(rune('0' + i))
+		if vrt.Bool("announces" + sfx) {
+			delay := vrt.U32("delay" + sfx)
+			vrt.Assume(delay <= uint32(maxDelay))
+			d := types.NewGrandpaConsensusDigest()
+			vrt.Assert("digest_ok", d.SetValue(types.GrandpaForcedChange{Auths: zzAuths23(uint64(100 + i)), Delay: delay}) == nil)
+			err := gs.HandleGRANDPADigest(t.hdr[i], d)
+			dup := false
+			for _, p := range pending {
+				if t.isAncestorOrSelf(p.block, i) {
+					dup = true
+				}
+			}
+			vrt.Observe("import", i, err != nil, dup)
+			vrt.Assert("one_forced_change_per_fork", (err != nil) == dup)
+			if !dup {
+				pending = append(pending, pend{i, delay})
+			}
+		}
+		// apply on import
+		applied := -1
+		for _, p := range pending {
+			if vrt.And(uint32(t.number[p.block])+p.delay == uint32(t.number[i]), t.isAncestorOrSelf(p.block, i)) { // forks on the delay
+				applied = p.block
+				break
+			}
+		}
+		err := gs.ApplyForcedChanges(t.hdr[i])
+		vrt.Assert("apply_forced_ok", err == nil)
+		if applied >= 0 {
+			setID++
+			pending = nil
+		}
+		cur, err := gs.GetCurrentSetID()
+		vrt.Observe("imported", i, cur, setID)
+		vrt.Assert("forced_set_id_matches", vrt.And(err == nil, cur == setID))
+		if applied >= 0 {
+			auths, err := gs.GetAuthorities(setID)
+			vrt.Assert("forced_authorities", err == nil && len(auths) == 1 && auths[0].ID == uint64(100+applied))
+			at, err := gs.GetSetIDChange(setID)
+			vrt.Assert("forced_activation_block", vrt.And(err == nil, at == t.number[i]))
+		}
+	}
+	vrt.Reach("end")
+}
